@@ -182,17 +182,29 @@ func c18Run(r *runCtx, id string, f []string) {
 				}
 			}
 		case "p":
-			// streams whose path still names a regular file survive the wake
+			// streams whose path still names something they can hold open survive the wake: a regular
+			// file, or a device that has taken the log's place (a stream is never started on one, but
+			// one that is there follows it); a directory, a socket, nothing at all end the stream
 			surv := 0
+			var followers []string
 			for _, t := range env.ta.VerifStreamPaths() {
-				if fi, err := os.Stat(t); err == nil && fi.Mode().IsRegular() {
+				fi, err := os.Stat(t)
+				if err != nil || fi.IsDir() {
+					continue
+				}
+				if fi.Mode().IsRegular() {
 					surv++
 					wantDelivered = append(wantDelivered, pending[rel(t)]...)
+				} else if fh, oerr := os.Open(t); oerr == nil {
+					fh.Close()
+					surv++
+					followers = append(followers, rel(t))
 				}
 			}
 			fresh = map[string]bool{}
 			pending = map[string][]string{}
-			want := eligible()
+			want := append(eligible(), followers...)
+			sort.Strings(want)
 			env.observe(surv, len(want), len(tpats))
 			got := tailed()
 			obs = append(obs, "T["+strings.Join(got, ",")+"]")
@@ -275,6 +287,10 @@ func init() {
 							"ap:d1/a.log:" + hx("one"), "ap:d1/b.log:" + hx("two"), "ap:d2/a.log:" + hx("three"), "p",
 							"cf:d1/c.log", "p", "ap:d1/c.log:" + hx("four"), "rm:d1/0.log", "cf:d1/0.log", "p", "ap:d1/0.log:" + hx("five"),
 							"mv:d1/ab.log:d1/zz.log", "p", "p"})
+						// ... and takes the place of a log that is being tailed: the stream follows a device, ends
+						// on a socket, and a log that comes back is tailed again
+						emit(ps, ig, []string{"cf:d1/a.log", "cf:d1/b.log", "p", "ap:d1/a.log:" + hx("one"), "rm:d1/a.log", mk + ":d1/a.log", "p", "p",
+							"ap:d1/b.log:" + hx("two"), "rm:d1/a.log", "cf:d1/a.log", "p", "ap:d1/a.log:" + hx("three"), "p", "p"})
 					}
 				}
 			}
